@@ -25,7 +25,9 @@ def prove_obligations(coqdir, timeout=600):
                            stderr=subprocess.STDOUT, text=True, cwd=coqdir)
         if p.returncode == 0:
             add_aggregate(path)
-            return failing, None
+            # every obligation taken out so far (by this call or an earlier one on the same generated text)
+            removed = re.findall(r"UNPROVED by lia, removed: Lemma (\S+)", open(path).read())
+            return removed, None
         m = re.search(r'line (\d+), characters', p.stdout)
         if not m:
             return failing, p.stdout[-2000:]
